@@ -1,6 +1,6 @@
 \* emission (workers 1): one JSON line per document (abstract text, verdict, expected reactor)
 CONSTANT MaxLevel <- EmitDepth
-CONSTANT Families = {"links", "comp", "stack", "pins", "core", "duct"}
+CONSTANT Families = {"links", "comp", "stack", "pins", "core", "duct", "group"}
 INVARIANT EmitState
 INIT Init
 NEXT Next
